@@ -213,7 +213,10 @@ def main(argv=None):
               "path_decisions": fb.get("path", None), "tier": tier,
               "repo_digest": repo_digest(meta.get("files", []))}
         concrete = None
-        if hasattr(mod, "replay"):
+        if e.get("kind") == "bounded":
+            # a bounded obligation is an execution of the real code: its failure is the failing input
+            concrete = {"confirmed": True, "source": "bounded obligation executed on the real code", "output": fb.get("detail", "")}
+        elif hasattr(mod, "replay"):
             try:
                 concrete = mod.replay(e["name"], fb)
             except Exception as ex:  # replay machinery must never turn into an alarm by itself
